@@ -65,6 +65,7 @@ type RunConfig struct {
 	CoLoc       bool           `json:"coloc,omitempty"`     // SMF 1 sends from SMF 0's IP address, another port
 	Startup     *StartupPlan   `json:"startup,omitempty"` // C20: the whole input of a start-up simulation
 	DNSFlaky    int            `json:"dns_flaky_pct,omitempty"` // percent of look-ups of known names that fail (C18)
+	Accum       bool           `json:"accum,omitempty"`   // long runs with scenarios that only matter after many repetitions
 	MidFwd      bool           `json:"mid_fwd,omitempty"` // notifications are handed to the server while the event loop is inside a turn
 	EarlyStop   bool           `json:"early_stop,omitempty"` // C17: the stop request arrives while the PFCP server is still starting
 	LogYield    int            `json:"log_yield_pct,omitempty"` // percent of go-upf's log statements that park their goroutine for a few ns (needs a debug/trace log level)
@@ -134,6 +135,9 @@ type Sim struct {
 
 	emu      sync.Mutex
 	evHash   uint64
+	evInst   time.Duration
+	evAcc    uint64
+	evN      int
 	trace    []string
 	verbose  bool
 	firedM   map[string]int
@@ -156,6 +160,7 @@ type Sim struct {
 	armed               []KRepItem
 	armedK              *KBufIntent
 	inMidFwd            bool
+	timerNo             atomic.Int64
 	armedAns            *Action
 	armedStop           int
 	closeDone, waitDone chan struct{}
@@ -195,14 +200,17 @@ func (s *Sim) logEvent(f string, a ...any) {
 	}
 	line := fmt.Sprintf(f, a...)
 	s.emu.Lock()
-	h := fnv.New64a()
-	var b [8]byte
-	binary.LittleEndian.PutUint64(b[:], s.evHash)
-	h.Write(b[:])
-	binary.LittleEndian.PutUint64(b[:], uint64(s.since()))
-	h.Write(b[:])
-	h.Write([]byte(line))
-	s.evHash = h.Sum64()
+	// events of one simulated instant are concurrent: they enter the hash as a set (their
+	// order in the log is whichever goroutine took the lock first), instants as a sequence
+	now := s.since()
+	if now != s.evInst {
+		s.foldInstant()
+		s.evInst = now
+	}
+	lh := fnv.New64a()
+	lh.Write([]byte(line))
+	s.evAcc += lh.Sum64()
+	s.evN++
 	if len(line) > 400 {
 		line = line[:400] + "…"
 	}
@@ -211,6 +219,21 @@ func (s *Sim) logEvent(f string, a ...any) {
 		s.trace = s.trace[len(s.trace)-200:]
 	}
 	s.emu.Unlock()
+}
+
+// foldInstant (emu held): the events gathered for the current instant enter the chain.
+func (s *Sim) foldInstant() {
+	if s.evN == 0 {
+		return
+	}
+	h := fnv.New64a()
+	var b [8]byte
+	for _, v := range []uint64{s.evHash, uint64(s.evInst), s.evAcc, uint64(s.evN)} {
+		binary.LittleEndian.PutUint64(b[:], v)
+		h.Write(b[:])
+	}
+	s.evHash = h.Sum64()
+	s.evAcc, s.evN = 0, 0
 }
 
 func (s *Sim) fired(name string, n int) {
@@ -654,6 +677,11 @@ func (s *Sim) installSeams() {
 	simhook.SetPerm(s.perm)
 	simhook.SetKnobs(s.cfg.Knobs)
 	simhook.SetChoose(s.choose)
+	// transaction timers started in one instant (several requests sent in one event-loop
+	// turn) would expire in one instant: 4 ns apart instead, in the order they were started
+	// (the counter is only touched by go-upf's callers of AfterFunc: the event loop)
+	s.timerNo.Store(0)
+	simhook.SetTimerSkew(func() time.Duration { return time.Duration(s.timerNo.Add(1)%(1<<15)) * 4 })
 	simhook.SetResolve(func(host string) (net.IP, error) {
 		s.probe("resolver.lookup", 1)
 		if s.cfg.DNSFlaky > 0 && int(s.hash("dns", hashStr(host), uint64(s.since()))%100) < s.cfg.DNSFlaky {
@@ -1137,6 +1165,9 @@ func Run(t *testing.T, cfg RunConfig, actions []Action, verbose bool) *RunResult
 				s.runBody(actions)
 				res.NonTrivial = s.nontrivial()
 			}
+			s.emu.Lock()
+			s.foldInstant()
+			s.emu.Unlock()
 			res.EventHash = fmt.Sprintf("%016x", s.evHash)
 			if !cfg.FreeRun {
 				res.Steps = s.stepNo
